@@ -61,6 +61,7 @@ pub fn gen_oligo_case(rng: &mut Rng, tier: &str, prop: &str) -> Case {
             "delim" => *rng.pick(&[",", "\t", " "]),
             "stdin" => stdin,
             "order" => if rng.chance(1, 2) { 0 } else { rng.range(1, 1 << 40) },
+            "stale" => if rng.chance(1, 8) { rng.range(1, 1 << 40) } else { 0 },
         },
         extra: vec![],
     }
@@ -90,6 +91,9 @@ impl Engine for C05 {
         let dir = sb.fresh("c05");
         let cfg = OligoCfg::from_params(&case.params);
         let out_path = dir.join("out.kmers");
+        if stale_output(&out_path, case.params.get("stale").and_then(|v| v.as_u64()).unwrap_or(0)) {
+            out.probe("stale_output_file", 1);
+        }
         let (r, ro) = run_oligo(
             &dir,
             "in",
@@ -218,7 +222,7 @@ impl Engine for C05 {
     }
 
     fn required_probes(&self) -> Vec<&'static str> {
-        vec![
+        vec!["stale_output_file", 
             "writer_mmap",
             "writer_batch",
             "mmap_rows_written_out_of_order",
